@@ -89,17 +89,21 @@ def recognise_lis(f1: int, indirect: bool, tif: bool, table: bool, split: bool, 
 LIS_OTHER_TYPES = [224, 225, 227, 232, 234, 85, 86, 95, 96, 97, 100, 101, 102, 42, 47, 65, 137, 138, 139, 141]
 
 
-def recognise_lis_other_records(ti: int, tif: bool, where: int, split: bool) -> bool:
+def recognise_lis_other_records(ti: int, tif: bool, where: int, split: bool, long: bool = False) -> bool:
     """
     pre: 0 <= ti <= 19 and 0 <= where <= 2
     post: _
     """
-    ti, tif, where, split = mark.pick(ti, 0, 19), mark.pickb(tif), mark.pick(where, 0, 2), mark.pickb(split)
+    ti, tif, where, split, long = mark.pick(ti, 0, 19), mark.pickb(tif), mark.pick(where, 0, 2), mark.pickb(split), mark.pickb(long)
     with mark.untraced():
         import C06_logpass as H6
         from spec import lis_lr_ref as L
         # a LIS file with a record of that type (opaque body) before the format specification, after the data, or as the only record of the file
         body = bytes([LIS_OTHER_TYPES[ti], 0]) + b'SOME TEXT 0123456789 \x00\xff' * 2
+        if long:
+            # a long plain-text body: with the record first, the file begins with several hundred bytes none of which exceeds 0x80 (the
+            # file header's type byte itself is 0x80)
+            body = bytes([LIS_OTHER_TYPES[ti], 0]) + b'PLAIN TEXT, NOTHING BUT TEXT 0123456789. ' * 8
         log = [L.dfsr(H6.CHS, False), L.data_record([L.i32(1000) + L.i32(7) + L.i16(1)], None)]
         lrs = [L.file_head_tail(128)] + ([body] + log, log + [body], [body])[where] + [L.file_head_tail(129)]
         data, pos = L.physical(lrs, tif, 23 if split else None, 0)
